@@ -3,7 +3,7 @@
 Theorems: lean/Strengths/Props/C01.lean (Spec `Strengths.Spec.rate`; models `Model/Kinetics.lean` (Python kinetics,
 make_dxdtf, marshalling) and `Model/Engine.lean` (Euler)).
 Correspondence: ops `dstate` (compute_dspeciesdt per entry, compute_dstatedt as a whole), `dxdtf`, `marshal`,
-`euler_step`, `spec_rate` (Lean Spec = Python oracle, exactly).
+`euler_step`, `marshal_dxdt` (Compute_dxdt on the decoded model marshalling, Props/C01Marshal.lean), `spec_rate` (Lean Spec = Python oracle, exactly).
 Oracle (independent of code and model): `determ_lib.oracle_rate`, the closed formula of the statement with exact
 rationals on the physical system the generator wrote down, against compute_dspeciesdt / compute_dstatedt /
 make_dxdtf / samples 0,1 of an Euler run; dimension and units system of every returned quantity.
@@ -26,8 +26,8 @@ def float(x):  # noqa: A001 — overflow-safe: a huge exact rational becomes ±i
 
 
 ID = "C01"
-LEAN_TARGETS = ["Strengths.Props.C01", "Strengths.Props.C01Dxdtf", "Strengths.Props.C01Total"]
-PROP_FILES = ["Strengths/Props/C01.lean", "Strengths/Props/C01Dxdtf.lean", "Strengths/Props/C01Total.lean"]
+LEAN_TARGETS = ["Strengths.Props.C01", "Strengths.Props.C01Dxdtf", "Strengths.Props.C01Total", "Strengths.Props.C01Marshal"]
+PROP_FILES = ["Strengths/Props/C01.lean", "Strengths/Props/C01Dxdtf.lean", "Strengths/Props/C01Total.lean", "Strengths/Props/C01Marshal.lean"]
 GEN_GROUPS = ["Units", "IndexPy", "EngineCpp", "KineticsPy"]
 RULE = ("random reaction networks (1-3 species, 0-3 reactions, orders 0-4 per side incl. empty sides and repeated species, "
         "scalar / per-environment k, D, density with and without 'default', zeros) on grids (w,h,d with all mixes of "
@@ -476,6 +476,10 @@ def run_euler(ctx, jobs):
         dte = float(script.time_step.convert(arr["us"]).value)
         ops.append({"op": "euler_step", "eng": eng, "x": [rstr(v) for v in x0e], "dt": rstr(dte)})
         meta.append(("euler_step", jb, arr, case, (x0e, [float(Fraction(v) * fq / fqe) for v in ss[1][1]], dte)))
+        # the same step from the MODEL's marshalling (pyMarshal), decoded by the engine's index formulas (Props/C01Marshal.lean)
+        hs = [eng["space"]["edge"]] if arr["space"]["kind"] == "grid" else list(eng["space"]["edge"])
+        ops.append({"op": "marshal_dxdt", "sys": jb["sysj"], "U": L.sysj(Ue), "edge": hs, "x": [rstr(v) for v in x0e]})
+        meta.append(("marshal_dxdt", jb, arr, case, (x0e, [float(Fraction(v) * fq / fqe) for v in ss[1][1]], dte)))
     res = ctx.model.run(ops)
     for (kind, jb, arr, case, extra), m in zip(meta, res):
         if m is None:
@@ -491,6 +495,13 @@ def run_euler(ctx, jobs):
             ctx.count("marshal")
             if not okm:
                 ctx.disagree("marshal", case, {k: arr[k] for k in ("k", "sub", "sto", "D", "vol")}, mo)
+        elif kind == "marshal_dxdt":
+            x0e, x1e, dt = extra
+            md = [rparse(v) for v in m["ok"]]
+            ctx.count("marshal_dxdt")
+            if len(md) != len(x1e) or not all(close(a, Fraction(c) + d * Fraction(dt), abs(Fraction(c)) + abs(d) * Fraction(dt), rel=TOL)
+                                              for a, c, d in zip(x1e, x0e, md)):
+                ctx.disagree("marshal_dxdt", case, x1e, [rstr(Fraction(c) + d * Fraction(dt)) for c, d in zip(x0e, md)])
         else:
             x0e, x1e, dt = extra
             mx = [rparse(v) for v in m["ok"]["x"]]
